@@ -313,6 +313,13 @@ func (e *Env) eval(ex Expr) SVal {
 		if n.Forall {
 			q = "forall"
 		}
+		var bnames []string
+		for _, qv := range n.Vars {
+			bnames = append(bnames, c.vars[qv.Name].T.S)
+		}
+		if pat := explicitPattern(body.S, bnames); pat != "" {
+			return boolV(T(SBool, "(%s (%s) (! %s :pattern (%s)))", q, strings.Join(binders, " "), body.S, pat))
+		}
 		return boolV(T(SBool, "(%s (%s) %s)", q, strings.Join(binders, " "), body.S))
 	case *ESelect:
 		return e.evalSelect(n)
@@ -946,4 +953,103 @@ func (e *Env) evalCall(n *ECall) SVal {
 	}
 	sfail("unknown function %q", n.Fn)
 	return SVal{}
+}
+
+// explicitPattern: for quantifiers with several bound variables one of which only occurs as a slice index (inside bvadd),
+// the solvers' automatic trigger inference finds nothing; give the smallest select/UF term containing all bound variables.
+func explicitPattern(body string, vars []string) string {
+	if len(vars) < 2 || !strings.Contains(body, "(bvadd ") {
+		return ""
+	}
+	needs := false
+	for _, v := range vars {
+		if strings.Contains(body, " "+v+")") && strings.Contains(body, "(bvadd ") {
+			// variable used as the last operand of some application; check it occurs under a bvadd
+			if idx := strings.Index(body, v); idx >= 0 {
+				needs = needs || underBvadd(body, v)
+			}
+		}
+	}
+	if !needs {
+		return ""
+	}
+	best := ""
+	var walk func(t string)
+	walk = func(t string) {
+		if !strings.HasPrefix(t, "(") {
+			return
+		}
+		args := splitSexprArgs(t)
+		if len(args) == 0 {
+			return
+		}
+		head := args[0]
+		ok := head == "select" || strings.HasPrefix(head, "uf_") || strings.HasPrefix(head, "cnt_") || strings.HasPrefix(head, "S_") || strings.HasPrefix(head, "A")
+		if ok && !strings.Contains(t, "(ite ") && !strings.Contains(t, "(forall ") && !strings.Contains(t, "(exists ") {
+			all := true
+			for _, v := range vars {
+				if !containsSym(t, v) {
+					all = false
+				}
+			}
+			if all && (best == "" || len(t) < len(best)) {
+				best = t
+			}
+		}
+		for _, a := range args[1:] {
+			walk(a)
+		}
+		if strings.HasPrefix(head, "(") {
+			walk(head)
+		}
+	}
+	walk(body)
+	return best
+}
+
+func containsSym(t, v string) bool {
+	i := 0
+	for {
+		k := strings.Index(t[i:], v)
+		if k < 0 {
+			return false
+		}
+		k += i
+		end := k + len(v)
+		before := k == 0 || t[k-1] == ' ' || t[k-1] == '('
+		after := end == len(t) || t[end] == ' ' || t[end] == ')'
+		if before && after {
+			return true
+		}
+		i = end
+	}
+}
+
+func underBvadd(body, v string) bool {
+	i := 0
+	for {
+		k := strings.Index(body[i:], "(bvadd ")
+		if k < 0 {
+			return false
+		}
+		k += i
+		// find matching paren
+		depth := 0
+		end := k
+		for j := k; j < len(body); j++ {
+			if body[j] == '(' {
+				depth++
+			} else if body[j] == ')' {
+				depth--
+				if depth == 0 {
+					end = j
+					break
+				}
+			}
+		}
+		if containsSym(body[k:end+1], v) {
+			return true
+		}
+		i = k + 7
+	}
 }
